@@ -77,14 +77,26 @@ Proof. exact runner_gone_command_gone. Qed.
 Print Assumptions C13_runner_gone_command_gone.
 
 (* ... and Cancel (no daemon restart) records Canceled and answers only when the runner is gone:
-   from then on neither the runner nor the command is alive, whatever happens next.  (A cancel
-   issued before the runner's Pid is recorded is a no-op in the code and not covered.) *)
+   from then on neither the runner nor the command is alive, whatever happens next.  *)
 Theorem C13_cancel_stops_process : forall sched i c, no_restart sched = true ->
   nth_error (w_cancels (run false sched world0)) i = Some c -> k_pc c = CWrite ->
   forall sched', let w' := run false sched' (run false sched world0) in
   gone (w_run w') = true /\ w_child w' <> CRun.
 Proof. exact cancel_stops_process. Qed.
 Print Assumptions C13_cancel_stops_process.
+
+(* ... and, with the launch done under a lock that Cancel takes (/repo a6deca5), EVERY Cancel or
+   Release that has done its part leaves the unit without a runner for good: either none was
+   launched and none will be, or it is gone, and the command with it.  (Before that fix a cancel
+   that arrived before the runner's pid was recorded was a no-op and the unit ran on.) *)
+Theorem C13_cancel_always_stops_process : forall sched i c, no_restart sched = true ->
+  nth_error (w_cancels (run false sched world0)) i = Some c ->
+  (k_pc c = CRmDir \/ k_pc c = CDelIdx \/ k_pc c = CEnd) ->
+  forall sched', no_restart sched' = true ->
+  let w' := run false sched' (run false sched world0) in
+  (w_run w' = RNone \/ gone (w_run w') = true) /\ w_child w' <> CRun.
+Proof. exact cancel_always_stops_process. Qed.
+Print Assumptions C13_cancel_always_stops_process.
 
 (* unit IDs: for every candidate stream and every interleaving of allocations (also those that
    fail after creating the directory) and releases, the index never holds an ID twice, and an ID
